@@ -107,6 +107,24 @@ impl Engine for Bep42 {
                 }
             }
         }
+        // runs of calls on related addresses (the same thread serves them all): the same address many times, then
+        // an address that agrees with it in its first octets only; an IPv4 address, then the IPv6 address whose
+        // first four octets are those (round-4 seed C20: a per-thread memo of the CRC keyed by four octets)
+        for _ in 0..2 {
+            let mut a = rng.bytes(16);
+            if rng.chance(1, 2) { a[0] = 0x20; a[1] = 0x01; a[2] = 0x0d; a[3] = 0xb8; }
+            for _ in 0..rng.range(8, 20) { ops.push(format!("fromip {}", hex(&a))); }
+            let mut b = a.clone();
+            let p = rng.range(4, 7) as usize;
+            b[p] ^= 1 << rng.below(8);
+            for _ in 0..rng.range(3, 10) { ops.push(format!("fromip {}", hex(&b))); }
+            let v4 = rng.bytes(4);
+            for _ in 0..rng.range(8, 16) { ops.push(format!("fromip {}", hex(&v4))); }
+            let mut c = vec![0u8; 16];
+            c[..4].copy_from_slice(&v4);
+            c[4 + rng.below(4) as usize] = rng.range(1, 255) as u8;
+            for _ in 0..rng.range(3, 10) { ops.push(format!("fromip {}", hex(&c))); }
+        }
         if idx == 0 {
             ops.push("crc 313233343536373839".into());
             ops.push("fromip 00000000".into());
